@@ -252,3 +252,41 @@ func vBatchDispatch(add bool) {
 }
 func VerifC08T_BatchDispatchAdd()   { vBatchDispatch(true) }
 func VerifC08_BatchDispatchRemove() { vBatchDispatch(false) }
+
+// ---- C08-H3 (set relations): observers of specific relation components fire iff ALL
+// their observed relations are in the set of relations whose target actually changed in
+// this call (a relation passed with its current target is not changed).
+func VerifC08_SetRelationsChangedSet() {
+	W := vShapeRel(1, 60, false, 0)
+	vTighten(W.w)
+	// tracked entity 5 has R1 -> p0 and R2 -> p1
+	e := W.e[5].h
+	cand := [3]Entity{W.e[0].h, W.e[1].h, {}}
+	t1 := cand[vPick("t1", 3)]
+	t2 := cand[vPick("t2", 3)]
+	var fired [2][4]int // [remove/add][For(R1), For(R2), For(R1,R2), wildcard]
+	for k, evt := range [2]EventType{OnRemoveRelations, OnAddRelations} {
+		k := k
+		Observe(evt).For(C[vChild]()).Do(func(Entity) { fired[k][0]++ }).Register(W.w)
+		Observe(evt).For(C[vChild2]()).Do(func(Entity) { fired[k][1]++ }).Register(W.w)
+		Observe(evt).For(C[vChild](), C[vChild2]()).Do(func(Entity) { fired[k][2]++ }).Register(W.w)
+		Observe(evt).Do(func(Entity) { fired[k][3]++ }).Register(W.w)
+	}
+	vcheck("no-panic", !vpanics(func() { W.u.SetRelations(e, RelID(W.id[cR1], t1), RelID(W.id[cR2], t2)) }))
+	ch1, ch2 := W.e[5].tgt[0] != t1, W.e[5].tgt[1] != t2
+	b := func(x bool) int {
+		if x {
+			return 1
+		}
+		return 0
+	}
+	for k := 0; k < 2; k++ {
+		vcheck("for-R1-fires-iff-R1-changed", fired[k][0] == b(ch1))
+		vcheck("for-R2-fires-iff-R2-changed", fired[k][1] == b(ch2))
+		vcheck("for-both-fires-iff-both-changed", fired[k][2] == b(ch1 && ch2))
+		vcheck("wildcard-fires-iff-any-changed", fired[k][3] == b(ch1 || ch2))
+	}
+	W.e[5].tgt = [2]Entity{t1, t2}
+	W.checkAll("after")
+	vreach("end")
+}
